@@ -245,7 +245,13 @@ func checkC20(c *Ctx) *core.Result {
 
 	// T4 no writer besides the initialiser (E1 audit).
 	a := runEffectsQuiet(p)
+	if t.HexMapVar == "" {
+		r.Note("no hex decode table literal on this tree (digit values are computed): T4 covers the four remaining tables")
+	}
 	for _, gname := range []string{t.KeywordsVar, t.BlackTagsVar, t.BlacksVar, t.BlackEventsVar, t.HexMapVar} {
+		if gname == "" {
+			continue
+		}
 		g := p.GlobalVar(gname)
 		if g == nil {
 			anchorFail(r, "table global "+gname, "no SSA global")
